@@ -123,6 +123,7 @@ class Converter:
         self.divisors = []   # z3 expressions that occur as divisors
 
     def atom(self, e):
+        e = z3.simplify(e)          # canonical index terms: f(k - 1 + 1) and f(k) are the same atom
         k = e.sexpr()
         if k not in self.atoms:
             self.atoms[k] = len(self.atoms)
